@@ -172,6 +172,15 @@ def gen_cfg(rng, world, fault_rate=0.35):
                          "kind": rng.choice(["net_error", "net_short_body", "net_bad_utf8",
                                              "net_not_json", "net_read_error"]),
                          "cut": rng.randrange(0, 64), "silent": rng.random() < 0.15}
+        if rng.random() < 0.2:
+            # the body arrives in small pieces when it is read with a size (as from a socket)
+            faults.setdefault(u, {"fail_first": 0, "exc": "OSError", "kind": "net_error", "cut": 0, "silent": False})
+            faults[u]["piece"] = rng.choice([1, 2, 3, 5, 7, 64])
+        if rng.random() < 0.15:
+            # the server redirects (or the HTTP client normalises the URL): the response reports another final URL
+            faults.setdefault(u, {"fail_first": 0, "exc": "OSError", "kind": "net_error", "cut": 0, "silent": False})
+            faults[u]["final_url"] = rng.choice([u + "/", u.replace("http://", "https://") if u.startswith("http://") else u + "?r=1",
+                                                 "http://mirror.test/moved/" + u.rsplit("/", 1)[-1]])
         if rng.random() < 0.05:
             # a handler that hands back the raw JSON TEXT instead of a parsed document (a frequent mistake): the
             # library stores and uses what it is given - consistently, whatever the validator did before
